@@ -111,9 +111,13 @@ def run(ctx):
         "disagreements_checked": len(sres["agree_device"]) + len(sres["agree_file"]),
         "corpus_pairs": len(obs), "synthetic_cases": len(cases), "hw_histogram": hw_hist,
         "front_end_errors": sum(1 for r in obs if "err" in r["dev"] or "err" in r["file"]),
+        "file_side_through_real_files": sum(1 for r in obs if r.get("via_files")),
     })
     ctx.assumptions += ["no ACL, implicit defaults off (as the property states)",
-                        "file_patch_worker's file reading / hw guessing is not part of the comparison"]
+                        "corpus pairs whose vendor text round-trips (join -> file -> parse gives the tree back) go "
+                        "through the real file reader api._read_old_new_hw with args.hw = the model string, as "
+                        "file_patch_worker does; the others and the synthetic rulebooks call _read_old_new_diff_patch "
+                        "on the trees; hw guessing (no --hw) is not part of the comparison"]
 
 
 def replay(ctx, doc):
